@@ -368,7 +368,9 @@ func ruleA1(w *World, r *Report) {
 			}
 		}
 	}
-	r.Floor(rule, 15)
+	// every access is an instance; what must not be empty is the set (the accessors alone
+	// account for three when every other site goes through them)
+	r.Floor(rule, 3)
 }
 
 // FL1: Flush pins one version per collection in sorted-name order, all before the first write.
